@@ -17,6 +17,10 @@
 #include "../rt/sim.h"
 #include "c16.hpp"
 
+#ifdef C18SIM_COVERAGE
+extern "C" void __gcov_dump(void);
+#endif
+
 namespace c16 {
 
 uint64_t mix64(uint64_t x) {
@@ -706,6 +710,9 @@ int main(int argc, char** argv) {
         }
         print_stats(st, nh, nontriv, dh);
         fflush(stdout);
+#ifdef C18SIM_COVERAGE
+        __gcov_dump();  // bin/coverage: the batch child leaves through _exit()
+#endif
         _exit(ncand > 0 ? 10 + (ncand > 50 ? 50 : ncand) : 0);
       }
       int stt = 0;
